@@ -181,12 +181,140 @@ func (e *Engine) checkBudget() {
 
 // feasible asks the solver whether pc ∧ extra is satisfiable (unknown counts as feasible).
 func (e *Engine) feasible(st *State, extra *Term, what string) bool {
+	ok, _ := e.feasibleM(st, extra, what)
+	return ok
+}
+
+// feasibleM also returns a model of pc ∧ extra when one is known (from the cache or the solver).
+func (e *Engine) feasibleM(st *State, extra *Term, what string) (bool, Model) {
 	if extra.IsFalse() {
-		return false
+		return false, nil
 	}
-	as := append(append([]*Term{}, st.pc...), extra)
-	v, _, _ := e.sol.Check(what, as)
-	return v != Unsat
+	if st.model != nil && modelHolds(st.model, extra) {
+		e.stats.CacheHits++
+		return true, st.model
+	}
+	// constraint independence: pc is satisfiable (invariant), so only the conjuncts that share
+	// variables (transitively) with extra can matter
+	rel := e.relevant(st.pc, extra)
+	as := append(rel, extra)
+	v, m, _ := e.sol.Check(what, as)
+	if v == Sat {
+		// complete the partial model with the cached one (the two parts share no variable)
+		if st.model != nil && len(rel) < len(st.pc) {
+			full := copyModel(st.model)
+			for k, x := range m {
+				full[k] = x
+			}
+			m = full
+			if !e.modelOK(st, m, extra) {
+				m = nil
+			}
+		} else if len(rel) < len(st.pc) {
+			m = nil
+		}
+		if st.model == nil && m != nil {
+			st.model = m
+		}
+		return true, m
+	}
+	return v != Unsat, nil
+}
+
+func (e *Engine) modelOK(st *State, m Model, extra *Term) bool {
+	ev := newEvaluator(m)
+	for _, t := range st.pc {
+		if ev.eval(t) != 1 || !ev.ok {
+			return false
+		}
+	}
+	return ev.eval(extra) == 1 && ev.ok
+}
+
+// varsOf returns the (cached) set of variable / function symbols of a term.
+func (e *Engine) varsOf(t *Term) []uint32 {
+	if v, ok := e.varCache[t]; ok {
+		return v
+	}
+	set := map[uint32]bool{}
+	seen := map[*Term]bool{}
+	var walk func(x *Term)
+	walk = func(x *Term) {
+		if seen[x] {
+			return
+		}
+		seen[x] = true
+		if c, ok := e.varCache[x]; ok && x != t {
+			for _, id := range c {
+				set[id] = true
+			}
+			return
+		}
+		switch x.Op {
+		case OpVar:
+			set[x.id] = true
+		case OpApp:
+			id, ok := e.funIDs[x.Name]
+			if !ok {
+				id = uint32(1<<31) + uint32(len(e.funIDs))
+				e.funIDs[x.Name] = id
+			}
+			set[id] = true
+		}
+		for _, a := range x.Args {
+			walk(a)
+		}
+	}
+	walk(t)
+	out := make([]uint32, 0, len(set))
+	for id := range set {
+		out = append(out, id)
+	}
+	e.varCache[t] = out
+	return out
+}
+
+// relevant returns the conjuncts of pc connected to extra through shared variables.
+func (e *Engine) relevant(pc []*Term, extra *Term) []*Term {
+	if e.opt.NoSlice {
+		return append([]*Term{}, pc...)
+	}
+	want := map[uint32]bool{}
+	for _, id := range e.varsOf(extra) {
+		want[id] = true
+	}
+	used := make([]bool, len(pc))
+	changed := true
+	for changed {
+		changed = false
+		for i, t := range pc {
+			if used[i] {
+				continue
+			}
+			vs := e.varsOf(t)
+			hit := false
+			for _, id := range vs {
+				if want[id] {
+					hit = true
+					break
+				}
+			}
+			if hit {
+				used[i] = true
+				changed = true
+				for _, id := range vs {
+					want[id] = true
+				}
+			}
+		}
+	}
+	var out []*Term
+	for i, t := range pc {
+		if used[i] {
+			out = append(out, t)
+		}
+	}
+	return out
 }
 
 // jump moves (st, fr) along the edge from -> to: evaluates phis, prunes dead registers, enqueues.
@@ -326,10 +454,11 @@ func (e *Engine) execBlock(st *State, fr *Frame, idx int, q *pqueue, exits *[]ex
 			}
 			nc := e.tc.Not(c)
 			tOK, fOK := true, true
+			var mT, mF Model
 			if !e.opt.NoForkCheck {
-				tOK = e.feasible(st, c, "branch")
+				tOK, mT = e.feasibleM(st, c, "branch")
 				if tOK {
-					fOK = e.feasible(st, nc, "branch")
+					fOK, mF = e.feasibleM(st, nc, "branch")
 				}
 			}
 			switch {
@@ -338,6 +467,7 @@ func (e *Engine) execBlock(st *State, fr *Frame, idx int, q *pqueue, exits *[]ex
 				e.stats.States++
 				st2 := st.fork()
 				fr2 := fr.clone()
+				st.model, st2.model = copyModel(mT), copyModel(mF)
 				st.assume(c)
 				st2.assume(nc)
 				e.concretise(st, fr, c)
@@ -412,6 +542,17 @@ func (e *Engine) execBlock(st *State, fr *Frame, idx int, q *pqueue, exits *[]ex
 			}
 		}
 	}
+}
+
+func copyModel(m Model) Model {
+	if m == nil {
+		return nil
+	}
+	n := make(Model, len(m))
+	for k, v := range m {
+		n[k] = v
+	}
+	return n
 }
 
 // concretise: after assuming an equality var == const, substitute it through the frame and heap
